@@ -1,4 +1,46 @@
-(* C12 theorems -- being grown; see Proofs/C12_*.v *)
-From EN Require Import Lib.Bytes Conc.FairLock Conc.Guard Conc.SendSerial.
-Theorem placeholder_c12 : True. Proof. exact I. Qed.
-Print Assumptions placeholder_c12.
+(* C12 -- concurrent senders never interleave packets.  Statements only; proofs in Proofs/C12_*.v. *)
+From Coq Require Import List Arith Bool Sorting.Sorted.
+From EN Require Import Lib.Bytes Conc.FairLock Conc.Guard Conc.SendSerial Proofs.C12_fairlock.
+Import ListNotations.
+
+(* FairLock, every label sequence (acquire / resume / cancel of ANY waiter at ANY time / release): at most one holder,
+   and a holder implies _locked *)
+Theorem fairlock_mutex :
+  forall (ls : list flabel) (s : fl), fl_run fl_init ls = Some s ->
+    length (fl_holders s) <= 1 /\ (fl_holders s <> [] -> fl_locked s = true).
+Proof. exact fairlock_mutex_proof. Qed.
+Print Assumptions fairlock_mutex.
+
+(* Tickets are arrival ranks (the k-th acquire() call gets ticket k, see fl_acquire).  The tickets that acquired,
+   in acquisition order, followed by the tickets still queued, are strictly increasing: acquisition order = arrival
+   order among the non-cancelled; and every ticket handed out so far is exactly one of acquired / queued / cancelled. *)
+Theorem fairlock_fifo :
+  forall (ls : list flabel) (s : fl), fl_run fl_init ls = Some s ->
+    StronglySorted lt (fl_acq s ++ map w_ticket (fl_waiters s)) /\
+    (forall k, count_occ Nat.eq_dec (fl_acq s ++ map w_ticket (fl_waiters s) ++ fl_cancelled s) k
+               = if k <? fl_next s then 1 else 0).
+Proof. exact fairlock_fifo_proof. Qed.
+Print Assumptions fairlock_fifo.
+
+(* free lock + non-empty queue => the head's event is set, its resumption is enabled and gives it the lock *)
+Theorem fairlock_no_lost_wakeup :
+  forall (ls : list flabel) (s : fl) (w : waiter) (r : list waiter), fl_run fl_init ls = Some s ->
+    fl_locked s = false -> fl_waiters s = w :: r ->
+    w_set w = true /\
+    exists s', fl_step s (FResume (w_tid w)) = Some (s', [OAcquired (w_tid w)]) /\
+               fl_holders s' = [w_tid w] /\ fl_waiters s' = r.
+Proof. exact fairlock_no_lost_wakeup_proof. Qed.
+Print Assumptions fairlock_no_lost_wakeup.
+
+(* nobody is stranded: if somebody waits, somebody holds the lock or the head of the queue has been woken *)
+Theorem fairlock_no_deadlock :
+  forall (ls : list flabel) (s : fl), fl_run fl_init ls = Some s -> fl_waiters s <> [] ->
+    (exists t, fl_holders s = [t]) \/ (exists w r, fl_waiters s = w :: r /\ w_set w = true).
+Proof. exact fairlock_no_deadlock_proof. Qed.
+Print Assumptions fairlock_no_deadlock.
+
+(* non-vacuity: a run with contention and a cancellation of a woken waiter *)
+Example fairlock_run_example :
+  exists s, fl_run fl_init [FAcquire 0; FAcquire 1; FAcquire 2; FRelease 0; FCancel 1; FResume 2] = Some s
+            /\ fl_holders s = [2] /\ fl_acq s = [0; 2] /\ fl_cancelled s = [1].
+Proof. eexists. split; [vm_compute; reflexivity|]. repeat split. Qed.
